@@ -71,7 +71,25 @@ func (s *State) clone() *State {
 }
 
 // component keys
-func cellKey(a *ssa.Alloc) string { return fmt.Sprintf("cell:%s:%p", a.Name(), a) }
+// cellKey names a local variable by its position in its function (block and instruction
+// index), so that the SMT text of a function is the same in every run.
+func cellKey(a *ssa.Alloc) string {
+	bi, ii := -1, -1
+	if b := a.Block(); b != nil {
+		bi = b.Index
+		for i, ins := range b.Instrs {
+			if ins == ssa.Instruction(a) {
+				ii = i
+				break
+			}
+		}
+	}
+	fn := ""
+	if a.Parent() != nil {
+		fn = a.Parent().Name()
+	}
+	return fmt.Sprintf("cell:%s:%s.b%di%d", a.Name(), fn, bi, ii)
+}
 func heapKey(st types.Type, field string) string {
 	return "H:" + types.TypeString(st, nil) + "." + field
 }
